@@ -31,6 +31,8 @@ type Op struct {
 
 type W struct {
 	Tasks [][]Op `json:"tasks"`
+	// Preload: classes registered before the tasks start (tables that change strategy above some size)
+	Preload int `json:"preload_classes,omitempty"`
 }
 
 // Gadget is a Go type registered as a script class through RegisterReflectClass.
@@ -101,6 +103,9 @@ func gen(r *verifsim.Rng, tier string) (any, hx.Sched) {
 		s.FocusWeight = verifsim.Pick(r, []int32{10, 30, 100})
 		s.MaxSteps = 1000000
 		return w, s
+	}
+	if r.Intn(6) == 0 {
+		w.Preload = verifsim.Pick(r, []int{150, 300, 1000, 5000})
 	}
 	pool := 1 + r.Intn(len(names)) // small pools collide more
 	kinds := []string{"addclass", "addclass", "addiface", "addfunc", "addfunc", "getclass", "getclass", "getiface", "getfunc", "loadpkg",
@@ -301,6 +306,9 @@ func exec(t *testing.T, x any, s hx.Sched) *hx.Outcome {
 				defer os.RemoveAll(reqDir)
 			}
 		}
+	}
+	for i := 0; i < w.Preload; i++ {
+		vm.AddClass(node.NewClassStatement(nil, fmt.Sprintf("Preloaded%05d", i), "", nil, nil, map[string]data.Method{}))
 	}
 	// script-level operations report their result through __r(task, value)
 	srets := make([]string, len(w.Tasks))
